@@ -35,19 +35,21 @@ type AScenario struct {
 	Cycle   []Op     `json:"cycle"`
 	Reps    int      `json:"reps"`
 	Only    string   `json:"only,omitempty"` // replay: restrict I5 to this API
+	Slow    []bool   `json:"slow,omitempty"` // haystacks left out as too slow (decided by wall clock on first execution, recorded so that a replay takes the same decisions)
 }
 
 type AOutcome struct {
-	Class         string       `json:"class"` // "" | alloc | invariant
-	Violations    []HViolation `json:"violations,omitempty"`
-	Strategy      string
-	ZeroCalls     int // zero-allocation measurements taken
-	Gated         int // measurements dropped because a cache was cleared while measuring
-	Cycles        int
-	Footprint     []int `json:"footprint_first_cycles,omitempty"`
-	DeepFootprint []int `json:"reachable_bytes_first_cycles,omitempty"`
-	HeapEarly     uint64
-	HeapLate      uint64
+	Class          string       `json:"class"` // "" | alloc | invariant
+	Violations     []HViolation `json:"violations,omitempty"`
+	Strategy       string
+	ZeroCalls      int // zero-allocation measurements taken
+	Gated          int // measurements dropped because a cache was cleared while measuring
+	Cycles         int
+	Footprint      []int `json:"footprint_first_cycles,omitempty"`
+	DeepFootprint  []int `json:"reachable_bytes_first_cycles,omitempty"`
+	HeapEarly      uint64
+	HeapLate       uint64
+	HeapGrowthSeen bool
 }
 
 var blowupPatterns = []string{`a[ab]{12}[cd]`, `[cd][ab]{10}a[ab]*x`, `ab[ab]{20}c`, `(a|b)*a(a|b){9}`, `[01]*1[01]{11}`, `[ab]*a[ab]{13}c`, `([ab]*)a[ab]{3}c`}
@@ -315,12 +317,29 @@ func runAlloc(sc *AScenario) *AOutcome {
 	// haystacks on which a single enumeration already takes tens of milliseconds
 	// (quadratic paths on long inputs) are left out: they would eat the batch's
 	// budget and add nothing to what the memory monitors can see
+	// Deterministic cost bound (no wall clock: the set of measurements must not depend
+	// on machine load): a haystack is left out when length x (length/64+1) x NFA
+	// size says a quadratic path would take tens of milliseconds per call.
+	nfaSize := 50
+	for _, d := range re.VerifEngine().VerifDFAs() {
+		if n := d.VerifNFAStates(); n > nfaSize {
+			nfaSize = n
+		}
+	}
+	for _, bt := range re.VerifEngine().VerifBacktrackers() {
+		if n := bt.NumStates(); n > nfaSize {
+			nfaSize = n
+		}
+	}
 	slow := make([]bool, len(hb))
 	for i := range hb {
-		t0 := time.Now()
-		re.Count(hb[i], -1)
-		slow[i] = time.Since(t0) > 30*time.Millisecond
+		n := len(hb[i])
+		slow[i] = n*(n/64+1)/1000*nfaSize > 50000
+		if !slow[i] {
+			re.Count(hb[i], -1)
+		}
 	}
+	sc.Slow = slow
 
 	// I5 zero allocation after warm-up
 	buf := make([][2]int, 0, 1<<16)
@@ -334,11 +353,7 @@ func runAlloc(sc *AScenario) *AOutcome {
 				continue
 			}
 			f := func() { za.fn(re, hb[i], hs[i], &buf) }
-			t0 := time.Now()
 			f()
-			if time.Since(t0) > 20*time.Millisecond {
-				continue // a call this slow (quadratic paths on long inputs) would eat the batch's budget
-			}
 			f()
 			f()
 			const runs = 10
@@ -374,12 +389,7 @@ func runAlloc(sc *AScenario) *AOutcome {
 	// I3/I4 plateau while a fixed cycle repeats
 	var fp, deepFp []int
 	maxEarly, maxEarlyDeep := 0, 0
-	plateauStart := time.Now()
 	for c := 0; c < sc.Reps; c++ {
-		if c > 12 && time.Since(plateauStart) > 3*time.Second {
-			sc.Reps = c // slow cycle: stop early, the measurements below use what was executed
-			break
-		}
 		for i := range sc.Cycle {
 			if !slow[sc.Cycle[i].H] {
 				execOp(re, &sc.Cycle[i], hb, hs)
@@ -389,7 +399,7 @@ func runAlloc(sc *AScenario) *AOutcome {
 		if c < 40 || c%8 == 0 {
 			// everything reachable from the value, the state in its single-slot cache and
 			// the borrowed-helper pools, by reflection (I3b)
-			df := deepFootprint(re, re.VerifEngine().VerifLocalState())
+			df := deepFootprint(re, re.VerifEngine().VerifLocalState(), simrt.Pools())
 			if c >= 1 && c <= 5 && df > maxEarlyDeep {
 				maxEarlyDeep = df
 			}
@@ -431,7 +441,11 @@ func runAlloc(sc *AScenario) *AOutcome {
 		// up to ~2 MB between two forced collections, so only growth beyond 4 MB that also
 		// doubles the early figure counts (a leak of >= ~1 KB per call in thorough runs)
 		if out.HeapLate > out.HeapEarly+4<<20 && out.HeapLate > out.HeapEarly*2 {
-			fail("invariant", fmt.Sprintf("heap held after %d cycles is %d bytes, after 10 cycles it was %d", sc.Reps, out.HeapLate, out.HeapEarly))
+			// I4 is informational only: HeapAlloc after forced collections turned out not to
+			// be reproducible from run to run (a 29 MB jump appeared in one of three
+			// identical executions), so it cannot be an oracle. Growth of anything reachable
+			// from the value or the pools is decided by the deterministic I3/I3b instead.
+			out.HeapGrowthSeen = true
 		}
 	}
 	return out
@@ -460,6 +474,9 @@ func allocBatch(base uint64, from, to int, tier string, budget time.Duration, st
 		}
 		sum.Runs++
 		sum.Strategies[out.Strategy]++
+		if out.HeapGrowthSeen {
+			sum.Probes["heap_growth_observed_informational"]++
+		}
 		zero += out.ZeroCalls
 		gated += out.Gated
 		cycles += out.Cycles
